@@ -10,7 +10,8 @@ SHAPES = ["random", "random", "random", "identical", "empty_est", "empty_ref", "
           "duplicates", "disjoint", "clustered"]
 
 CHORDS = ["N", "C", "C:maj", "G:min", "A:7", "F:maj7", "D:min7", "E:dim", "Bb:aug", "F#:sus4", "C:maj/3",
-          "G:7/b7", "X", "Db:hdim7", "A:min(9)", "C:maj6", "E:min/5", "D:9", "Ab:maj(*3)"]
+          "G:7/b7", "X", "Db:hdim7", "A:min(9)", "C:maj6", "E:min/5", "D:9", "Ab:maj(*3)", "C:9(13)", "G:9",
+          "E:min11(*b3)", "B:min11"]
 KEYS = ["C major", "c minor", "G major", "A minor", "F# major", "Eb minor", "Bb major", "X", "D other",
         "g# minor", "Db major", "B other"]
 
